@@ -67,7 +67,20 @@ type wgModel struct {
 // for); a state that repeats while only spinners can move is a livelock.
 const SpinTag = "spin"
 
+// timerModel: a virtual timer channel (vsrt.NewTicker / NewTimer): the scheduler decides when it fires
+type timerModel struct {
+	ch       chan time.Time
+	periodic bool
+	stopped  bool
+	fired    bool
+}
+
+// MaxTimerFires bounds how often virtual timers fire in one execution (a ticker in a loop would otherwise make the
+// execution space infinite); beyond it time stands still.
+const MaxTimerFires = 4
+
 type transition struct {
+	timer uintptr // != 0: the environment event "this timer fires now", received by goroutine a
 	spin bool
 	a, b int  // goroutine ids; b = -1 if single
 	alt  int  // value handed to a when it is woken (choice alternative / select case; -1 = default)
@@ -90,6 +103,8 @@ type Exec struct {
 	byGo    map[int64]*G
 	chans   map[uintptr]*chanModel
 	wgs     map[uintptr]*wgModel
+	timers  map[uintptr]*timerModel
+	fires   int
 	running int
 	quiet   chan struct{}
 	Trace   []string
@@ -236,6 +251,33 @@ func preHook(kind vsrt.Kind, obj interface{}, n int) {
 	x.park(g, o)
 }
 
+// timerHook registers / stops / re-arms a virtual timer
+func timerHook(c chan time.Time, op string) {
+	x := cur
+	x.mu.Lock()
+	defer x.mu.Unlock()
+	p := reflect.ValueOf(c).Pointer()
+	switch op {
+	case "ticker", "timer":
+		x.timers[p] = &timerModel{ch: c, periodic: op == "ticker"}
+		x.chanOf(c)
+	case "stop":
+		if t := x.timers[p]; t != nil {
+			t.stopped = true
+		}
+	case "reset":
+		if t := x.timers[p]; t != nil {
+			t.stopped, t.fired = false, false
+		}
+	}
+}
+
+// canFire: the timer behind channel obj may fire now
+func (x *Exec) canFire(obj uintptr) bool {
+	t := x.timers[obj]
+	return t != nil && !t.stopped && (t.periodic || !t.fired) && x.fires < MaxTimerFires && x.chans[obj].len == 0
+}
+
 // postHook: the receiving side of a rendezvous parks again right after the real receive
 func postHook() {
 	x := cur
@@ -361,7 +403,7 @@ func (x *Exec) runG(g *G, ready chan struct{}, f func()) {
 }
 
 func (x *Exec) enabled() []transition {
-	var ts []transition
+	var ts, timerTs []transition
 	for _, g := range x.gs {
 		if g.Done || !g.parked {
 			continue
@@ -403,6 +445,10 @@ func (x *Exec) enabled() []transition {
 						ts = append(ts, transition{a: g.ID, b: -1, alt: i, desc: fmt.Sprintf("%s:select-recv(ch%d,closed=%v)", g.Name, c.id, c.closed)})
 						continue
 					}
+					if x.canFire(sc.obj) {
+						timerTs = append(timerTs, transition{a: g.ID, b: -1, alt: i, timer: sc.obj, desc: fmt.Sprintf("%s:select-timer-fires(ch%d)", g.Name, c.id)})
+						continue
+					}
 					for _, sdr := range x.gs {
 						if !sdr.Done && sdr.parked && sdr.ID != g.ID && sdr.pending.kind == vsrt.KSend && sdr.pending.obj == sc.obj && c.cap == 0 {
 							ts = append(ts, transition{a: sdr.ID, b: g.ID, altB: i, desc: fmt.Sprintf("%s=>select:%s:ch%d", sdr.Name, g.Name, c.id)})
@@ -410,7 +456,7 @@ func (x *Exec) enabled() []transition {
 					}
 				}
 			}
-			if len(ts) == n0 && o.hasDefault {
+			if len(ts) == n0 && o.hasDefault { // (a timer that could fire does not make the select ready: default runs)
 				ts = append(ts, transition{a: g.ID, b: -1, alt: -1, desc: g.Name + ":select-default"})
 			}
 		case vsrt.KWgWait:
@@ -436,12 +482,20 @@ func (x *Exec) enabled() []transition {
 			c := x.chans[o.obj]
 			if c.len > 0 || c.closed {
 				ts = append(ts, transition{a: g.ID, b: -1, desc: fmt.Sprintf("%s:recv(ch%d,closed=%v)", g.Name, c.id, c.closed)})
+			} else if x.canFire(o.obj) {
+				timerTs = append(timerTs, transition{a: g.ID, b: -1, timer: o.obj, desc: fmt.Sprintf("%s:timer-fires(ch%d)", g.Name, c.id)})
 			}
 		}
 	}
+	// "the timer fires now" is the environment's answer the explorer deviates to: offered after everything else
+	nonTimer := len(ts)
+	ts = append(ts, timerTs...)
 	// canonical order: transitions of the goroutine that ran last first, then by id
 	last := x.lastRun
 	sort.SliceStable(ts, func(i, j int) bool {
+		if (ts[i].timer != 0) != (ts[j].timer != 0) {
+			return ts[i].timer == 0
+		}
 		if ts[i].spin != ts[j].spin {
 			return !ts[i].spin
 		}
@@ -479,6 +533,13 @@ func (x *Exec) enabled() []transition {
 			t.cost = 1
 			if runningEnabled && !involvesLast {
 				t.cost = 2
+			}
+		}
+		if t.timer != 0 {
+			// while anything else can move, a timer landing first is a deviation; if only time can pass, it passes
+			t.cost = 0
+			if nonTimer > 0 {
+				t.cost = 1
 			}
 		}
 		if Strict && i > 0 && t.cost == 0 {
@@ -529,6 +590,18 @@ func (x *Exec) key() uint64 {
 	for _, w := range ws {
 		h = mix(h, uint64(w.id), uint64(w.cnt+1000), uint64(w.readers))
 	}
+	if len(x.timers) > 0 {
+		tms := make([]uintptr, 0, len(x.timers))
+		for p := range x.timers {
+			tms = append(tms, p)
+		}
+		sort.Slice(tms, func(i, j int) bool { return x.chans[tms[i]].id < x.chans[tms[j]].id })
+		for _, p := range tms {
+			t := x.timers[p]
+			h = mix(h, uint64(x.chans[p].id), b2i(t.stopped), b2i(t.fired))
+		}
+		h = mix(h, uint64(x.fires))
+	}
 	// which goroutine ran last matters for the canonical order / costs
 	h = mix(h, uint64(x.lastRun+1))
 	return h
@@ -538,6 +611,13 @@ func (x *Exec) fire(t transition) {
 	a := x.gs[t.a]
 	o := a.pending
 	a.nops++
+	if t.timer != 0 {
+		tm := x.timers[t.timer]
+		tm.fired = true
+		x.fires++
+		tm.ch <- time.Time{} // capacity 1 and empty (canFire): never blocks; the woken goroutine receives it at once
+		a.hist = mix(a.hist, uint64(999), uint64(x.chans[t.timer].id))
+	}
 	switch o.kind {
 	case vsrt.KClose:
 		c := x.chans[o.obj]
@@ -650,11 +730,12 @@ func Install() {
 	vsrt.OrderHook = orderHook
 	vsrt.SelectHook = selectHook
 	vsrt.PostHook = postHook
+	vsrt.TimerHook = timerHook
 }
 
 // Uninstall restores pass-through mode.
 func Uninstall() {
-	vsrt.PreHook, vsrt.GoHook, vsrt.OrderHook, vsrt.SelectHook, vsrt.PostHook = nil, nil, nil, nil, nil
+	vsrt.PreHook, vsrt.GoHook, vsrt.OrderHook, vsrt.SelectHook, vsrt.PostHook, vsrt.TimerHook = nil, nil, nil, nil, nil, nil
 }
 
 // abortAll lets every parked goroutine of a finished execution unwind and exit,
@@ -699,7 +780,7 @@ func Run(prefix []int, body func(), onMark func(x *Exec, tag string, g *G)) *Exe
 }
 
 func run(prefix []int, body func(), onMark func(x *Exec, tag string, g *G)) *Exec {
-	x := &Exec{byGo: map[int64]*G{}, chans: map[uintptr]*chanModel{}, wgs: map[uintptr]*wgModel{}, quiet: make(chan struct{}, 1), OnMark: onMark}
+	x := &Exec{byGo: map[int64]*G{}, chans: map[uintptr]*chanModel{}, wgs: map[uintptr]*wgModel{}, timers: map[uintptr]*timerModel{}, quiet: make(chan struct{}, 1), OnMark: onMark}
 	cur = x
 	main := &G{ID: 0, Name: "main", wake: make(chan int, 1)}
 	x.gs = append(x.gs, main)
